@@ -55,7 +55,7 @@ def classify(pid, ev):
 def run(pid, tier):
     v = core.Verdict(pid)
     mine = {"C03": ("bounds", "monotonic"), "C04": ("components", "wellformed", "panic")}[pid]
-    invariants = {"C03": ["Bounds", "Monotonic"], "C04": ["LawHolds", "CleanTagUnchanged"]}[pid]
+    invariants = {"C03": ["Bounds", "PreTagExact", "Monotonic"], "C04": ["LawHolds", "CleanTagUnchanged"]}[pid]
     if tier == "quick":
         sfx, rs, big = (ALL_SUFFIXES if pid == "C03" else ["", "-base-prerelease-post-dev", "-context"]), ([1] if pid == "C03" else [1, 2, 3, 4]), False
         hl = (5,)
